@@ -96,8 +96,15 @@ def wf(a):
     st = a.pre.st
     m, d = tbl(st, a.self, "_prefers")
     mm_, dm_ = tbl(st, a.self, "_methods")
+    def old_obj(t):  # objects that exist before the call are not among those the call allocates
+        return z3.And(V.is_ref(t), V.Val.a(t) <= 0)
+
+    tables = [z3.Select(st.field_array(f), V.Val.a(a.self)) for f in ("_methods", "_cache", "_prefers")]
+    inners = [z3.Select(st.field_array("_inner"), V.Val.a(t)) for t in tables]
     return z3.And(
         isa_axioms(),
+        *[old_obj(t) for t in tables + inners],
+        z3.ForAll([x], z3.Implies(z3.Select(d, x), z3.And(old_obj(z3.Select(m, x)), old_obj(z3.Select(st.field_array("_inner"), V.Val.a(z3.Select(m, x)))))), patterns=[z3.Select(d, x)]),
         z3.ForAll([x], z3.Implies(z3.Select(d, x), z3.And(V.is_ref(z3.Select(m, x)), V.cls_of(V.Val.a(z3.Select(m, x))) == a.eng.class_id(PersistentSet))), patterns=[z3.Select(d, x)]),
         # the search uses None as "nothing found yet": a method is never None and nil is not a dispatch value
         z3.Not(z3.Select(dm_, V.VNone)),
@@ -194,13 +201,134 @@ def build(active_known=frozenset()):
         ]
 
     c.loop(0, invariant=find_inv, frame=[], lists=False)
+    pack.find_inv = find_inv
 
     def rp_order(m, ctx, ob):
         return WITNESS_ORDER
 
     c.replay(rp_order)
     c.replay_without_model = True
+    add_cache_contracts(pack, matches, coherent, active_known)
     return pack
+
+
+# ----------------------------------------------------------------------------- cache coherence
+K = z3.Const("K.anykey", V.Val)  # generalisation constant: an arbitrary dispatch value
+B = z3.Const("B.best", V.Val)
+
+
+def answer(st, mf, key, r, matches):
+    """`r` is the spec's answer for dispatch value `key` under the tables of state st and the current hierarchy."""
+    m, d = tbl(st, mf, "_methods")
+    dflt = z3.Select(st.field_array("_default"), V.Val.a(mf))
+    mt = lambda v: matches(st, mf, key, v)  # noqa: E731
+    dominating = lambda b: z3.And(mt(b), z3.ForAll([x], z3.Implies(mt(x), DOM(st, mf, b, x)), patterns=[ISA(HCUR, key, x)]))  # noqa: E731
+    return z3.And(
+        z3.Implies(dominating(B), r == z3.Select(m, B)),
+        z3.Implies(z3.Not(z3.Exists([x], mt(x))), r == z3.If(z3.Select(d, dflt), z3.Select(m, dflt), V.VNone)),
+    )
+
+
+def cache_inv(st, mf, key, matches):
+    """Every cache entry equals the answer computed from the *current* tables - as long as the cache was
+    filled under the current hierarchy value (otherwise get_method resets it first)."""
+    mc, dc = tbl(st, mf, "_cache")
+    hc = z3.Select(st.field_array("_cached_hierarchy"), V.Val.a(mf))
+    return z3.Implies(z3.And(z3.Not(V.py_ne(hc, HCUR)), z3.Select(dc, key)), z3.And(z3.Not(V.is_none(z3.Select(mc, key))), answer(st, mf, key, z3.Select(mc, key), matches)))
+
+
+def add_cache_contracts(pack, matches, coherent, active_known):
+    MultiFunction, PersistentMap, PersistentSet = _cls()
+    mod = "basilisp.lang.multifn"
+    carve = "C18-nontransitive-dominance" in active_known
+
+    class HierRef:  # stand-in class for the IRef holding the hierarchy (Var or Atom): only deref is used
+        pass
+
+    def csetup(eng, st):
+        setup(eng, st)
+        hid = eng.class_id(HierRef)
+        eng.field_types[("MultiFunction", "_hierarchy")] = lambda v: (z3.And(V.is_ref(v), V.cls_of(V.Val.a(v)) == hid), HierRef)
+        eng.method_models[(HierRef, "deref")] = Model("IRef.deref (current hierarchy value)", lambda e, s, a, k: iter([(s, SV(HCUR))]))
+        from pyvc.loops import LoopSpec
+
+        # get_method inlines the search: its loop carries the same invariant as in the search's own proof
+        eng.loop_specs[(f"{mod}:MultiFunction._find_and_cache_method", 0)] = LoopSpec(invariant=pack.find_inv, frame=[], lists=False)
+
+    def common(c, keyparam=True):
+        c.param("self", OBJ(MultiFunction))
+        c.setup(csetup)
+        c.requires("tables are well-typed; isa? is reflexive and transitive", wf if keyparam else wf_nokey)
+        c.requires("a hierarchy value is not != itself", lambda a: z3.Not(V.py_ne(HCUR, HCUR)))
+
+    def wf_nokey(a):
+        class _A:  # wf() mentions a.key: for functions without a `key` parameter use the generic K
+            pass
+
+        b = _A()
+        b.__dict__.update(eng=a.eng, pre=a.pre, self=a.self, key=K)
+        return wf(b)
+
+    def with_key(a, key):
+        class _A:
+            pass
+
+        b = _A()
+        b.__dict__.update(eng=a.eng, pre=a.pre, post=a.post, self=a.self, key=key)
+        return b
+
+    # the same search also has to establish the existence clause of `answer`
+    cf = [k for k in pack.contracts if k.key.endswith("_find_and_cache_method") and not k.modular][0]
+    cf.ensures("if anything matches, the result is the method of a match that dominates every match",
+               lambda a: z3.Implies(z3.Exists([x], matches(a.pre.st, a.self, a.key, x)),
+                                    z3.Exists([y], z3.And(matches(a.pre.st, a.self, a.key, y),
+                                                          z3.ForAll([x], z3.Implies(matches(a.pre.st, a.self, a.key, x), DOM(a.pre.st, a.self, y, x)), patterns=[ISA(HCUR, a.key, x)]),
+                                                          a.result == z3.Select(tbl(a.pre.st, a.self, "_methods")[0], y)))))
+
+    # ---- get_method
+    c = pack.contract(f"{mod}:MultiFunction.get_method")
+    common(c)
+    if carve:
+        c.requires("[carve-out] dominance is transitive and antisymmetric on the matching keys", coherent)
+        c.requires("[carve-out] ... and on the keys matching the arbitrary dispatch value K", lambda a: coherent(with_key(a, K)))
+    c.requires("cache invariant for this dispatch value", lambda a: cache_inv(a.pre.st, a.self, a.key, matches))
+    c.requires("cache invariant for an arbitrary other dispatch value K", lambda a: z3.And(cache_inv(a.pre.st, a.self, K, matches), z3.Not(z3.Or(V.is_bool(K), V.is_frac(K)))))
+    c.ensures("the method returned is the spec's answer from the current methods, preferences and hierarchy - whatever was cached", lambda a: answer(a.pre.st, a.self, a.key, a.result, matches))
+    c.ensures("the method/preference tables are not changed", lambda a: z3.And(*[tbl(a.post.st, a.self, f)[i] == tbl(a.pre.st, a.self, f)[i] for f in ("_methods", "_prefers") for i in (0, 1)]))
+    c.ensures("the cache invariant holds afterwards (for the arbitrary K)", lambda a: cache_inv(a.post.st, a.self, K, matches))
+
+    # ---- mutators re-establish the cache invariant for every key
+    def mutator(name, extra_requires=None):
+        c = pack.contract(f"{mod}:MultiFunction.{name}")
+        common(c, keyparam=False)
+        c.requires("K is an arbitrary dispatch value (not a boolean/ratio)", lambda a: z3.Not(z3.Or(V.is_bool(K), V.is_frac(K), V.is_none(K))))
+        if carve:
+            c.requires("[carve-out] after the change, dominance is antisymmetric on the keys matching K", lambda a: z3.BoolVal(True))
+        c.ensures("cache invariant for every dispatch value after the mutation (K arbitrary)", lambda a: cache_inv_post(a))
+        return c
+
+    def cache_inv_post(a):
+        st = a.post.st
+        inv = cache_inv(st, a.self, K, matches)
+        if carve:
+            # antisymmetry of dominance among the matches of K in the *new* tables (carve-out of the known finding)
+            mt = lambda v: matches(st, a.self, K, v)  # noqa: E731
+            anti = z3.ForAll([x, y], z3.Implies(z3.And(mt(x), mt(y), DOM(st, a.self, x, y), DOM(st, a.self, y, x)), x == y), patterns=[z3.MultiPattern(ISA(HCUR, K, x), ISA(HCUR, K, y))])
+            return z3.Implies(anti, inv)
+        return inv
+
+    c = mutator("add_method")
+    c.requires("the key is a proper dispatch value and the method is not None", lambda a: z3.And(z3.Not(z3.Or(V.is_bool(a.key), V.is_frac(a.key), V.is_none(a.key))), z3.Not(V.is_none(a.method))))
+    c.ensures("exactly this method is added", lambda a: (lambda m1, d1, m0, d0: z3.And(m1 == z3.Store(m0, a.key, a.method), d1 == z3.Store(d0, a.key, True)))(*tbl(a.post.st, a.self, "_methods"), *tbl(a.pre.st, a.self, "_methods")))
+    c = mutator("remove_method")
+    c.requires("the key is a proper dispatch value", lambda a: z3.Not(z3.Or(V.is_bool(a.key), V.is_frac(a.key), V.is_none(a.key))))
+    c.requires("a stored method is a truthy object (remove_method tests `if method:`)",
+               lambda a: (lambda m0, d0: z3.Implies(z3.Select(d0, a.key), a.eng.truthy_term(SV(z3.Select(m0, a.key)), a.pre.st)))(*tbl(a.pre.st, a.self, "_methods")))
+    c.ensures("exactly this key is removed", lambda a: (lambda m1, d1, m0, d0: z3.And(d1 == z3.Store(d0, a.key, False)))(*tbl(a.post.st, a.self, "_methods"), *tbl(a.pre.st, a.self, "_methods")))
+    c = mutator("remove_all_methods")
+    c.ensures("no method is left", lambda a: tbl(a.post.st, a.self, "_methods")[1] == z3.K(V.Val, z3.BoolVal(False)))
+    c = mutator("prefer_method")
+    c.requires("proper dispatch values", lambda a: z3.And(*[z3.Not(z3.Or(V.is_bool(v), V.is_frac(v), V.is_none(v))) for v in (a.preferred_key, a.other_key)]))
 
 
 WITNESS_ORDER = r'''
